@@ -778,6 +778,7 @@ pub fn c03_worker(ctx: &mut Ctx) {
     for r in results {
         ctx.absorb(r);
     }
+    crate::execchecks::drop_thread_dbs();
     let mutated: HashSet<String> = ctx.res.sets.get("hint_kinds_mutated").cloned().unwrap_or_default().into_iter().collect();
     for k in ["AllocSegment", "TestLessThan", "TestLessThanOrEqual", "TestLessThanOrEqualAddress", "WideMul128", "DivMod", "Uint256DivMod", "Uint512DivModByUint256", "SquareRoot", "Uint256SquareRoot", "LinearSplit", "AllocFelt252Dict", "Felt252DictEntryInit", "GetSegmentArenaIndex", "InitSquashData", "GetCurrentAccessIndex", "ShouldSkipSquashLoop", "GetCurrentAccessDelta", "ShouldContinueSquashLoop", "GetNextDictKey", "AssertLeFindSmallArcs", "AssertLeIsFirstArcExcluded", "AssertLeIsSecondArcExcluded", "RandomEcPoint", "FieldSqrt", "AllocConstantSize", "U256InvModN", "EvalCircuit"] {
         if !mutated.contains(k) {
